@@ -189,7 +189,13 @@ def run(ctx):
         rr = [v["replay"]["request"] for v in rp.get("violations", []) if "request" in v.get("replay", {})]
         reqs = rr or reqs[:200]
     ntr = 150 if ctx.quick() else 2500
-    traces = [] if (ctx.replay and reqs) else cache_traces(ctx.rng, ntr)
+    traces = cache_traces(ctx.rng, ntr)
+    if ctx.replay:
+        tr = [(v["replay"]["trace"]["lifetime_ms"], v["replay"]["trace"]["events"])
+              for v in rp.get("violations", []) if "trace" in v.get("replay", {})]
+        traces = tr if (tr or rr) else traces
+        if tr and not rr:
+            reqs = []
     pre = prelude()
     ops = pre + [line(r) for r in reqs] + ["cseq %d %s" % (life, ",".join(evs)) for life, evs in traces]
     impl, log, rc = c.run_harness(ctx, "cmd/keymasterd", "C08", ops)
@@ -211,12 +217,20 @@ def run(ctx):
         cls, effs = canon_impl(l)
         jops.append("j %s %d %d %s %s %s %s %s" % (c.hexs(r["actor"]), r["dirdown"], r["level"], r["op"], r["action"],
                                                   c.hexs(r["target"]), cls, " ".join(effs) if effs else "-"))
+    for (life, evs), l in zip(traces, impl[n1:]):
+        jops.append("jc %d %s %s" % (life, ",".join(evs), ",".join(l.split()) or "-"))
     verdicts = c.run_driver(ctx, "judge", jops)
+    for (life, evs), l, v in zip(traces, impl[n1:], verdicts[n0 + len(reqs):]):
+        if v != "ok":
+            tr = {"lifetime_ms": life, "events": evs}
+            c.add_violation(ctx, "cache:" + v.split()[1] if len(v.split()) > 1 else "cache", (
+                "IsAdminUser history (lifetime %d ms) %s: real verdicts %s; judge: %s" % (life, ",".join(evs), l, v)),
+                {"trace": tr, "impl": l, "judge": v})
     classes = Counter()
     per_op = {}
     cells = set()
     other_allowed = Counter()
-    for r, l, v in zip(reqs, impl[n0:n1], verdicts[n0:]):
+    for r, l, v in zip(reqs, impl[n0:n1], verdicts[n0:n0 + len(reqs)]):
         cls, effs = canon_impl(l)
         classes[cls] += 1
         per_op.setdefault(r["op"], Counter())[cls] += 1
